@@ -125,7 +125,10 @@ pub fn run(args: &Args) {
                 }
                 emu.verif_wait(t - emu.verif_frame_clocks());
                 let c = r.u8();
-                let port = *r.pick(&[0x00FEu16, 0x10FE, 0x8000 | 0x3EFE & 0xBFFE]);
+                // "the ULA port" is every even address (the ULA decodes A0 only): mostly xxFE, and any other even port,
+                // including the ones that select the 128K paging latch or the AY as well (the written value then also
+                // pages memory - the program lives in bank 2 with interrupts off - or programs the AY)
+                let port = if r.chance(1, 2) { *r.pick(&[0x00FEu16, 0x10FE, 0xBEFE, 0xFFFE]) } else { r.u16() & 0xFFFE };
                 let t0 = emu.verif_frame_clocks();
                 {
                     let cpu = emu.verif_cpu();
@@ -134,7 +137,7 @@ pub fn run(args: &Args) {
                     cpu.regs.set_pc(CODE);
                 }
                 step(&mut emu);
-                writes.push(json!([t0, c]));
+                writes.push(json!([t0, c, port]));
                 lastt = emu.verif_frame_clocks();
                 if lastt < t0 {
                     // the OUT crossed the frame end: it belongs to the next frame's picture as well;
